@@ -123,6 +123,12 @@ Theorem C16_wait_schedule_independent : forall filt log1 log2 ws1 ws2, arrivals 
   wait_scan filt log1 ws1 = wait_scan filt log2 ws2.
 Proof. exact wait_schedule_independent. Qed.
 
+(* the deadline: once a wake-up finds the clock past end_time, nothing logged at or after it is handed
+   out, whatever still arrives (the call as a whole has one deadline, not one per wake-up) *)
+Theorem C16_wait_deadline : forall filt log pre b r,
+  wait_scan filt log (pre ++ WNew b true :: r) = wait_scan filt log pre.
+Proof. exact wait_deadline. Qed.
+
 (* ---- non-vacuity ---- *)
 Definition nv_frames : list (list Z * Z) :=
   [([1; 32; 2; 0; 1; 2; 3; 4], 1000); ([0; 0; 0; 0; 0; 0; 0; 0], 1001); ([0; 48; 129; 9; 8; 7; 6; 5], 1002);
@@ -185,4 +191,5 @@ Print Assumptions C16_wait_next_match.
 Print Assumptions C16_wait_handed_first_match.
 Print Assumptions C16_wait_nothing.
 Print Assumptions C16_wait_schedule_independent.
+Print Assumptions C16_wait_deadline.
 Print Assumptions C16_source_reset_test_is_model.
